@@ -19,6 +19,7 @@ typedef struct {
 	int madvise;          /* reader option */
 	int verify;           /* reader option */
 	int madvise_env;      /* MTBL_READER_MADVISE_RANDOM: -1 unset, 0, 1 (overrides the option; must not affect anything else) */
+	int pool_used;        /* the pool has already served a pooled sorter (unordered jobs) before the writer gets it */
 } wcfg_t;
 
 static const char *COMP_NAME[] = {"none", "snappy", "zlib", "lz4", "lz4hc", "zstd"};
@@ -57,12 +58,13 @@ static inline void gen_wcfg(rng_t *r, wcfg_t *c)
 	c->madvise = rndp(r, 300);
 	c->verify = rndp(r, 500);
 	c->madvise_env = rndn(r, 4) == 0 ? (int)rndn(r, 2) : -1;
+	c->pool_used = c->pool > 0 && rndn(r, 3) == 0;
 }
 static inline const char *wcfg_str(const wcfg_t *c)
 {
 	static char b[200];
-	snprintf(b, sizeof b, "comp=%s level=%d(%s) bs=%zu ri=%zu pool=%d prefix=%zu fd=%d", COMP_NAME[c->comp], c->level,
-		 LEVEL_CLASS[c->level_class], c->block_size, c->restart, c->pool, c->prefix_len, c->use_fd);
+	snprintf(b, sizeof b, "comp=%s level=%d(%s) bs=%zu ri=%zu pool=%d%s prefix=%zu fd=%d", COMP_NAME[c->comp], c->level,
+		 LEVEL_CLASS[c->level_class], c->block_size, c->restart, c->pool, c->pool_used ? "(used by a sorter before)" : "", c->prefix_len, c->use_fd);
 	return b;
 }
 static inline void wcfg_stats(const wcfg_t *c)
@@ -139,7 +141,25 @@ static inline int write_model(const char *path, const wcfg_t *c, const model_t *
 }
 static inline struct mtbl_threadpool *wcfg_pool(const wcfg_t *c)
 {
-	return c->pool >= 0 ? mtbl_threadpool_init((size_t)c->pool) : NULL;
+	struct mtbl_threadpool *p = c->pool >= 0 ? mtbl_threadpool_init((size_t)c->pool) : NULL;
+	if (p && c->pool_used) {
+		/* a pool is a long-lived object shared by whatever needs it: let a small multi-chunk sorter use it first */
+		struct mtbl_sorter_options *so = mtbl_sorter_options_init();
+		mtbl_sorter_options_set_temp_dir(so, g_workdir);
+		mtbl_sorter_options_set_max_memory(so, 600);
+		mtbl_sorter_options_set_threadpool(so, p);
+		struct mtbl_sorter *s = mtbl_sorter_init(so);
+		mtbl_sorter_options_destroy(&so);
+		for (int i = 0; i < 64; i++) { uint8_t k[8], v[40]; memset(v, i, sizeof v); int lk = snprintf((char *)k, sizeof k, "p%03d", (i * 37) % 64); mtbl_sorter_add(s, k, lk, v, sizeof v); }
+		struct mtbl_iter *it = mtbl_sorter_iter(s);
+		const uint8_t *k, *v; size_t lk, lv, n = 0;
+		while (it && mtbl_iter_next(it, &k, &lk, &v, &lv) == mtbl_res_success) n++;
+		if (it) mtbl_iter_destroy(&it);
+		mtbl_sorter_destroy(&s);
+		if (n != 64) inconclusive("the warm-up sorter on the pool returned %zu of 64 entries", n);
+		STAT("cfg.pool_used_by_sorter_before");
+	}
+	return p;
 }
 static inline struct mtbl_reader *open_reader(const char *path, const wcfg_t *c)
 {
